@@ -147,6 +147,11 @@ type RIB struct {
 	// can be fully resolved in the RIB. In the current implementation it
 	// is called only for IPv4 entries.
 	resolvedEntryHook ResolvedEntryFn
+
+	// postChangeHook is the hook supplied to SetPostChangeHook. It is stored
+	// so that network instances that are created after the hook was
+	// registered are given it too. It is protected by nrMu.
+	postChangeHook RIBHookFn
 }
 
 // RIBHolder is a container for a set of RIBs.
@@ -340,6 +345,9 @@ type pendingEntry struct {
 // SetPostChangeHook assigns the supplied hook to all network instance RIBs within
 // the RIB structure.
 func (r *RIB) SetPostChangeHook(fn RIBHookFn) {
+	r.nrMu.Lock()
+	defer r.nrMu.Unlock()
+	r.postChangeHook = fn
 	for _, nir := range r.niRIB {
 		nir.mu.Lock()
 		nir.postChangeHook = fn
@@ -379,7 +387,9 @@ func (r *RIB) AddNetworkInstance(name string) error {
 		rhOpt = append(rhOpt, DisableForwardReferences())
 	}
 
-	r.niRIB[name] = NewRIBHolder(name, rhOpt...)
+	nir := NewRIBHolder(name, rhOpt...)
+	nir.postChangeHook = r.postChangeHook
+	r.niRIB[name] = nir
 	return nil
 }
 
